@@ -133,6 +133,17 @@ func (mi *methodInfo) isURLBound(name string) bool {
 
 // sprintField is fmt.Sprint of a scalar field value as the Go client prints it.
 func sprintField(fd protoreflect.FieldDescriptor, v protoreflect.Value) string {
+	if fd.IsList() { // a sample ELEMENT: the first one, or the kind's plain value
+		if l := v.List(); l.Len() > 0 {
+			v = l.Get(0)
+		} else if fd.Kind() == protoreflect.StringKind {
+			return "x"
+		} else if fd.Kind() == protoreflect.BoolKind {
+			return "true"
+		} else {
+			return "1"
+		}
+	}
 	switch fd.Kind() {
 	case protoreflect.StringKind:
 		return v.String()
